@@ -254,6 +254,9 @@ def main():
         if pid == "C07" and r.gen is not None and r.gen.clock_uses:
             for cu in r.gen.clock_uses:
                 violations.append((unit.NAME, dict(obligation="C07 side condition (syntactic): a clock reading is used outside the deadline test `elapsed > timeout`: %s:%d `%s`" % (cu["file"], cu["line"], cu["text"][:160]), clock_use=cu)))
+        if pid == "C07" and r.gen is not None and r.gen.entropy_uses:
+            for eu in r.gen.entropy_uses:
+                violations.append((unit.NAME, dict(obligation="C07 side condition (syntactic): a source of randomness / time other than the generator passed in is used outside the planners: %s:%d `%s`" % (eu["file"], eu["line"], eu["text"]), entropy_use=eu)))
         if pid == "C07" and r.gen is not None and r.gen.hash_order_uses:
             for hu in r.gen.hash_order_uses:
                 violations.append((unit.NAME, dict(obligation="C07 side condition (syntactic): iteration over a hash container (its order depends on per-instance random hash keys, not on the seed): %s:%d `%s`" % (hu["file"], hu["line"], hu["text"][:160]), hash_order_use=hu)))
